@@ -661,6 +661,20 @@ def t_const_arith(facts, res, tier):
             seen.add(key)
             res.inst(key, True, {"function": fn["name"], "expression": expr_text(n)[:80], "why": desc})
             res.fail(key, facts.where(fn, n), "%s computes `%s` with a bare operator (%s): an overflow panics (i32::MAX + 1, 65536 * 65536, 1 << 40, -(i32::MIN), i32::MIN / -1) instead of being reported or wrapped" % (fn["name"], expr_text(n)[:80], desc))
+    # a left shift of two source constants: checked_shl / wrapping_shl look at the count only - `0x10000 << 16` is 0 to them.
+    # The value must be checked as well (widen and convert back, or multiply with a check)
+    for fn in facts.fns:
+        if fn["file"].endswith("/cpp.rs") or "/tests/" in fn["file"]:
+            continue
+        widening = any(x.get("k") == "cast" and x["ty"].replace(" ", "") in ("i64", "i128") for x in walk(fn["body"])) and "try_from" in _norm(fn["body"])
+        for node, env, doms in scoped(fn):
+            if node.get("k") == "mcall" and node["method"] in ("checked_shl", "wrapping_shl", "overflowing_shl") and node.get("args"):
+                kl = _const_origin(node["recv"], env)
+                # the count may have gone through try_from(..).ok().and_then(|s| ..): look at the closure's origin too
+                if kl and not widening:
+                    key = "T-CONST-ARITH:%s:%s" % (fn["name"], _norm(node)[:40])
+                    res.inst(key, True, {"function": fn["name"], "expression": expr_text(node)[:80], "why": "left shift checked for its count only"})
+                    res.fail(key, facts.where(fn, node), "%s shifts the source constant `%s` left with %s: that checks the count, not the value - `0x10000 << 16` and `0x7fffffff << 1` wrap silently instead of being rejected" % (fn["name"], expr_text(node["recv"])[:40], node["method"]))
     # checked/wrapping calls on constants are the positive instances
     for fn in facts.fns:
         if fn["file"].endswith("/cpp.rs") or "/tests/" in fn["file"]:
@@ -2286,3 +2300,78 @@ def t_grammar_atomic(facts, res, tier):
                 "compound-atomic" if r.get("ty") in ("compound", "compound_atomic") else "atomic", name, "s" if len(bad) > 1 else "", ", ".join("`%s`" % b for b in bad), name))
     if n == 0:
         raise AnchorMissing("no atomic rule found in the grammar")
+
+
+# ----------------------------------------------------------------------------- is the quote escaped?
+
+
+END_ANCHORED = {"ends_with", "trim_end_matches", "strip_suffix", "rfind", "rsplit", "rsplitn", "rsplit_once", "last", "len", "is_empty"}
+NOT_END_ANCHORED = {"trim_matches", "trim_start_matches", "starts_with", "strip_prefix", "contains", "matches", "find", "split", "splitn", "split_once", "trim", "trim_start", "replace", "count", "chars", "bytes"}
+
+
+@rule("T-QUOTE-ESCAPE", floor=1,
+      text="while the scanner looks for the quote that closes a string literal, whether a quote is escaped depends only on the backslashes "
+           "directly in front of it: the tests made on the piece of text before the quote, in the branch that decides between 'this is the end' "
+           "and 'go on', are anchored at the end of that piece (ends_with, trim_end_matches, rfind ..).  A test that also looks at the start or "
+           "the middle of the piece (trim_matches, contains, a count over all its characters) lets an escape elsewhere in the literal - `\\t` at "
+           "its start - decide, and the literal is closed early: the macro name after the escaped quote is then expanded inside the string")
+def t_quote_escape(facts, res, tier):
+    fn = None
+    for f in facts.fns:
+        if f["name"] == "process" and f["file"].endswith("/cpp.rs"):
+            fn = f
+    if fn is None:
+        raise AnchorMissing("cpp.rs: process() not found")
+    n = 0
+    for node, env, doms in scoped(fn):
+        # the closing-quote search: `if let Some((left, _)) = <text>.split_once('"')` inside a loop
+        if node.get("k") != "if":
+            continue
+        c = node["cond"]
+        e0 = strip(c.get("e")) if isinstance(c, dict) and c.get("k") == "letcond" else None
+        if not (isinstance(e0, dict) and e0.get("k") == "mcall" and e0["method"] == "split_once" and e0.get("args") and strip(e0["args"][0]).get("k") == "lit" and str(strip(e0["args"][0]).get("v")) == '"'):
+            continue
+        in_loop = any(x.get("k") in ("while", "loop") and any(y is node for y in walk(x["body"])) for x in walk(fn["body"]))
+        if not in_loop:
+            continue
+        # the opening quote is found the same way one level up: the closing-quote search is the innermost such site
+        def is_site(y):
+            if not (isinstance(y, dict) and y.get("k") == "if" and isinstance(y.get("cond"), dict) and y["cond"].get("k") == "letcond"):
+                return False
+            e1 = strip(y["cond"].get("e"))
+            return isinstance(e1, dict) and e1.get("k") == "mcall" and e1["method"] == "split_once" and e1.get("args") and str(strip(e1["args"][0]).get("v")) == '"'
+        if any(is_site(y) for y in walk(node["then"]) if y is not node):
+            continue
+        piece = None
+        p = c["pat"]
+        for b in _pat_idents(p):
+            piece = b
+            break
+        if piece is None:
+            continue
+        n += 1
+        # every method applied to the piece (or to a value derived from it) inside this search
+        used = set()
+        derived = {piece}
+        for x in walk(node["then"]):
+            if x.get("k") == "let" and x.get("init") is not None and any(y.get("k") == "path" and y["segs"] == [d] for y in walk(x["init"]) for d in derived):
+                derived |= _pat_idents(x.get("pat"))
+        for x in walk(node["then"]):
+            if x.get("k") == "mcall":
+                root = x["recv"]
+                while isinstance(root, dict) and root.get("k") in ("mcall", "ref", "unary", "field"):
+                    root = root.get("recv") or root.get("e") or root.get("base")
+                if isinstance(root, dict) and root.get("k") == "path" and len(root["segs"]) == 1 and root["segs"][0] in derived:
+                    chain = []
+                    y = x
+                    while isinstance(y, dict) and y.get("k") == "mcall":
+                        chain.append(y["method"])
+                        y = y["recv"]
+                    used |= set(chain)
+        key = "T-QUOTE-ESCAPE:process:%s" % piece
+        bad = sorted(used & NOT_END_ANCHORED)
+        res.inst(key, True, {"piece": piece, "tests": sorted(used)})
+        if bad:
+            res.fail(key, facts.where(fn, node), "the search for the closing quote decides whether the quote is escaped with %s on the text before it (`%s`): that is not anchored at the end of the piece, so backslashes elsewhere in the literal count (`\"\\tsay \\\"FOO\\\" twice\"` is closed at the first escaped quote and FOO is expanded)" % (", ".join("`%s`" % b for b in bad), piece))
+    if n == 0:
+        raise AnchorMissing("process(): the loop that looks for the closing quote of a string literal was not found")
